@@ -1195,6 +1195,8 @@ class Evaluator:
         attr = call.func.attr
         if isinstance(base, (list, set, dict, str, tuple)) and not call.keywords:
             args = [self.ev(a) for a in call.args]
+            if attr in ("extend", "update", "intersection", "union", "difference", "issubset", "issuperset", "join"):
+                args = [list(a.abs_iter()) if hasattr(a, "abs_iter") else a for a in args]
             table = {
                 list: ("append", "extend", "clear", "copy", "pop", "index", "count", "insert"),
                 set: ("add", "update", "clear", "copy", "intersection", "union", "difference", "discard", "remove"),
